@@ -1,11 +1,15 @@
 """C07  Timeouts mean what the documentation says, for every blocking call."""
-from props import sockgen, c06
+from props import sockgen, c06, c18
 
 ID = "C07"
 HARNESSES = {
     "sockops": dict(sources=sockgen.SRC, flavour="asan", mode="C07s", timeout=30),
     "default": dict(name="sockops", sources=sockgen.SRC, flavour="asan", mode="C07s", timeout=30),
     "todos": dict(sources=c06.SRC, flavour="asan", mode="C06", timeout=30),
+    # the TLS socket's waits (handshake rounds, BIO callbacks, HandleError): C18's harness and driver, whose spec carries
+    # the timeout clauses (unlimited -> only unlimited waits, zero -> only zero waits, T > 0 -> every wait within the
+    # remaining budget) and whose correspondence replays every wait against the glue model
+    "tls": dict(c18.HARNESSES["tls"]),
 }
 RULE = ("complete grid: 7 blocking operations (TCP Receive basic/buffered, TCP Send, UDP SendTo, UDP ReceiveFrom basic/buffered, "
         "Acceptor::Listen) x T in {-1,0,1,2,17,1000,2^31-1} x arrival of the awaited event in {already there, T-1, T, T+1, never}, "
@@ -16,7 +20,8 @@ RULE = ("complete grid: 7 blocking operations (TCP Receive basic/buffered, TCP S
         "a timeout result) ; distinct op sequences.")
 ASSUMPTIONS = ["A-POLL: poll(t) returns 0 only after t ms and not later than t ms plus scheduling latency; nothing is measured on a wall clock",
                "|T| < 2^31 ms (documented domain)", "A-CLOCK: steady_clock monotone"]
-TRUSTED = ["tools/cxx2lean.py (source-derived tie, DESIGN.md 0.7): clang-14 JSON AST, chrono unit semantics read from the desugared types, unbounded Int for signed arithmetic (overflow = UB), abstract memcmp / container queries",
+TRUSTED = ["tools/cxx2lean_eff.py (stage 2, DESIGN.md 0.7.1): world boundary (DoPoll, Interrupted, Clock::now, ::send, ::recv, SocketError opaque; handles dropped), C++ evaluation order, pointer = offset, string_view = (offset, length), objects = fields; Model/GenWorld.lean reads the model answers as C results",
+           "tools/cxx2lean.py (source-derived tie, DESIGN.md 0.7): clang-14 JSON AST, chrono unit semantics read from the desugared types, unbounded Int for signed arithmetic (overflow = UB), abstract memcmp / container queries",
            "vos shim (virtual clock: a poll with nothing ready advances the clock by its timeout)"]
 ALL_TAGS = ["recv.none", "recv.value", "recv.unl", "recv.zero", "recv.lim", "send.all", "send.try", "send.some", "sendto", "recvfrom",
             "listen", "step.unlimited", "step.zero", "step.limited", "wait.todo", "wait.full"]
@@ -25,7 +30,8 @@ MS = 1000000
 
 
 def nontrivial(ops, tags):
-    return any(t in tags for t in ("recv.none", "recv.lim", "send.some", "wait.todo", "wait.full", "recv.unl", "send.all", "listen", "sendto", "recvfrom"))
+    return any(t in tags for t in ("recv.none", "recv.lim", "send.some", "wait.todo", "wait.full", "recv.unl", "send.all", "listen", "sendto", "recvfrom",
+                                   "recv.limited", "recv.unlimited", "send.limited", "send.unlimited"))
 
 
 def step_grid():
@@ -62,6 +68,15 @@ def gen(rng, tier):
         cases.append(("sockops", "r%d" % k, ops))
     for k in range(100 if tier == "quick" else 30000):
         cases.append(("todos", "tr%d" % k, c06.rand_history(rng)))
+    # TLS slice: synchronous endpoints only (the asynchronous ones have no timeout parameter)
+    combos = [c for c in c18.matrix() if c[0] != "async" and c[1] != "async"]
+    if tier == "quick":
+        combos = rng.sample(combos, 70)
+    for k, (cli, srv, ct, st, cf, sf, style, seg, shared) in enumerate(combos):
+        csz, ssz = rng.choice([1, 100, 3000]), rng.choice([1, 100, 3000])
+        ops = c18.case_ops(cli, srv, ct, st, cf, sf, style, seg, rng.randrange(10**6), csz, ssz, shared)
+        if ops:
+            cases.append(("tls", "tls%d" % k, ops))
     return cases
 
 
@@ -74,4 +89,6 @@ LEVEL_TEXT = ("Machine-checked theorems: T<0 never yields 'nothing' and only iss
               "real code under a link-time virtual clock, comparing every poll argument, virtual time and result with the model and with "
               "the documented semantics.")
 LEVEL_NOTE = ("Trusted: Lean kernel; axioms propext/Quot.sound/Classical.choice; model validated on the grid; vos shim. Real elapsed "
-              "time is the kernel's business (A-POLL). TLS waits: C18.")
+              "time is the kernel's business (A-POLL). The TLS socket's waits are checked on the implementation (budget clauses of the C18 spec, "
+              "correspondence with the glue model) but the budget theorems above are about the plain loops; for the TLS glue the "
+              "corresponding statements are tlsRead_bounds / writeRound_chain in Props/C18.lean.")
